@@ -5,7 +5,7 @@ import json, os, re, shutil, sys, glob
 conf = {}
 for f in glob.glob('/tmp/mxout/confirm*.log') + glob.glob('/verif/seeded/confirm*.log'):
     for l in open(f):
-        m = re.match(r'((?:R2)?C\d\d[AB]): (.*)', l.strip())
+        m = re.match(r'((?:R\d)?C\d\d[AB]): (.*)', l.strip())
         if m: conf[m.group(1)] = m.group(2)
 matrix = {}
 for f in sorted(glob.glob('/tmp/mxout/m*.json')) + sorted(glob.glob('/verif/seeded/matrix*.json')):
@@ -18,9 +18,9 @@ def needs(readme):
     hit = [l for l in ls if re.search(r'(?i)\b(trigger|manifest|needs|only when|only shows|only for|requires)\b', l) and len(l) > 30]
     return ' '.join(hit[:3])[:700] if hit else ' '.join(ls[:6])[:500]
 rows = []
-for name in sorted(set(conf) | {n for n in matrix if re.match(r'(R2)?C\d\d[AB]$', n)}):
-    r2 = name.startswith('R2'); pid = name[-4:-1]; ab = name[-1]
-    src = f'/tmp/{"wt2" if r2 else "wt"}/{pid}/MUTANT/{ab}'
+for name in sorted(set(conf) | {n for n in matrix if re.match(r'(R\d)?C\d\d[AB]$', n)}):
+    rnd = name[:-4]; r2 = bool(rnd); pid = name[-4:-1]; ab = name[-1]
+    src = f'/tmp/wt{rnd[1:] if rnd else ""}/{pid}/MUTANT/{ab}'
     dst = f'/verif/seeded/{name}'
     if os.path.exists(src + '/patch.diff'):
         os.makedirs(dst, exist_ok=True)
@@ -30,7 +30,7 @@ for name in sorted(set(conf) | {n for n in matrix if re.match(r'(R2)?C\d\d[AB]$'
     readme = open(f'{dst}/README.md').read() if os.path.exists(f'{dst}/README.md') else ''
     mx = matrix.get(name, {}).get('results', {})
     meta = dict(id=name, breaks_property=pid, property_title=props[pid]['title'],
-                origin='written by an independent sub-agent that saw only the property text and a scratch worktree of /repo' + (' (second round: told which mechanisms to avoid)' if r2 else ''),
+                origin='written by an independent sub-agent that saw only the property text and a scratch worktree of /repo' + (f' (round {rnd[1:]}: told which mechanisms earlier rounds had used, to avoid them)' if r2 else ''),
                 needs_to_manifest=needs(readme), description_file='README.md',
                 confirmed=dict(how='tools/confirm_mutant.sh in a scratch worktree of /repo: cargo test --workspace --offline with the change applied; the demonstration as purl/tests/demo.rs with the change; the demonstration without it',
                                result=conf.get(name, 'not re-confirmed')),
